@@ -73,6 +73,10 @@ CLAIMED = {
             "TLC explores every sequence of Grow / Populate / Delete / Verify(full, latest) actions up to the bound and proves that with an ideal cache (complete policy lookup, checkpoints only from full verification) every Verify answers what the cache-less verifier answers; action sequences are replayed on a real repository whose every Verify is also run on a cache-less copy, with all references listed before and after, and TLC judges equality of verdict and tip and attributes differences to the listed cache deviations.",
             "One reference, key-disjoint principals, chain-valid policies; the attestation index of the cache is modelled but not stressed.",
             "DESIGN.md section 4 C08"),
+    "C19": ("Verify.tla (MergePredictI, MergeIdeal, MergeAgrees), MC_Verify.tla (family merge, C19Agrees), Trace_Verify.tla (Prop=C19)",
+            "TLC enumerates policies with delegation thresholds 1..3 and a global threshold rule, approvals by every subset of principals bound to the predicted change, and feature trees, and proves that the ideal prediction agrees with verification of the merge for every recorder (authorised, already counted, unauthorised, unknown key, unsigned); on real repositories VerifyMergeableForCommit is asked, then every recorder records the merge on a copy and verifies it, and TLC judges the agreement and attributes disagreements to the listed deviations.",
+            "Fast-forward merges only (the recorded commit carries the predicted tree); file rules and code-review approvals are not in the merge family yet.",
+            "DESIGN.md section 4 C19"),
 }
 
 NOT_YET = {
